@@ -384,12 +384,49 @@ def h_wedge_batch(env, order="aligned", tomos=(3, 11)):
         env.check("em_wedge_min_max_%d" % t, _ok(env, abs(float(em["min_angle"].iloc[i]) - min(tl[t])) < 1e-4 and abs(float(em["max_angle"].iloc[i]) - max(tl[t])) < 1e-4 and int(em["tomo_num"].iloc[i]) == t))
 
 
+def h_wedge_sg_to_em(env, via="frame"):
+    """STOPGAP wedge list -> EM wedge list: per tomogram the minimum and maximum tilt, whatever the row order of the tilts
+    (lists built from arrays keep acquisition order).  Tilts are solver reals when the list is handed over as a table."""
+    wu = env.module("wedgeutils")
+    tl = {3: [env.real("t3_%d" % i, -70, 70) for i in range(3)], 11: [env.real("t11_%d" % i, -70, 70) for i in range(2)]}
+    if via == "file":
+        k = _pick(env, "set", 3)
+        tl = {3: [[0.0, -12.0, 15.0], [48.0, 3.0, -51.0], [-9.0, 0.0, 9.0]][k], 11: [[20.5, -20.25], [-5.0, 10.0], [7.0, 6.0]][k]}
+    rows = []
+    for t in (11, 3):                                   # tomograms not in ascending order either
+        for v in tl[t]:
+            rows.append({"tomo_num": t, "pixelsize": 1.5, "tomo_x": 100, "tomo_y": 120, "tomo_z": 50, "z_shift": 0.0, "tilt_angle": v, "voltage": 300.0, "amp_contrast": 0.07, "cs": 2.7})
+    cols = list(rows[0].keys())
+    if env.mode == "sym" and via != "file":
+        df = pd.DataFrame({c: (objcol([r[c] for r in rows]) if c == "tilt_angle" else [r[c] for r in rows]) for c in cols})
+    else:
+        df = pd.DataFrame({c: [float(r[c]) if c != "tomo_num" else int(r[c]) for r in rows] for c in cols})
+    out_em = env.real_path("wedge.em")
+    if via == "file":
+        from cryocat import starfileio as _sf       # the file is produced with the plain writer; the function under test reads it
+        p = env.real_path("wedge_sg.star")
+        _sf.Starfile.write([df], p, specifiers=["data_stopgap_wedgelist"])
+        em = wu.wedge_list_sg_to_em(p, out_em, write_out=True)
+    else:
+        em = wu.wedge_list_sg_to_em(df, out_em, write_out=False)
+    env.check("one_row_per_tomogram", _ok(env, sorted(int(v) for v in em["tomo_id"]) == [3, 11]))
+    for i in range(em.shape[0]):
+        t = int(em["tomo_id"].iloc[i])
+        if t not in tl:
+            continue
+        lo, hi = em["min_tilt_angle"].iloc[i], em["max_tilt_angle"].iloc[i]
+        env.check("min_is_a_lower_bound_%d" % t, env.and_(*[env.le(lo, v) for v in tl[t]]))
+        env.check("max_is_an_upper_bound_%d" % t, env.and_(*[env.ge(hi, v) for v in tl[t]]))
+        env.check("min_max_are_attained_%d" % t, env.and_(env.or_(*[env.eq(lo, v) for v in tl[t]]), env.or_(*[env.eq(hi, v) for v in tl[t]])))
+
+
 def jobs(tier, seed):
     j = [("h_mdoc_ops", {"n": 3, "remove": [1]}), ("h_mdoc_ops", {"n": 3, "remove": [0, 2], "reset": True}), ("h_mdoc_ops", {"n": 3, "remove": [0], "sort_first": True, "second": [1]}),
          ("h_mdoc_ops", {"n": 3, "remove": [2], "sort_first": True, "reset": True}), ("h_mdoc_file_ops", {}), ("h_mdoc_roundtrip", {}),
          ("h_loaders", {"kind": "gctf"}), ("h_loaders", {"kind": "ctffind4"}), ("h_tilt_dose", {"src": "tlt"}), ("h_tilt_dose", {"src": "mdoc"}),
          ("h_wedge_single", {"n": 3}), ("h_wedge_single", {"n": 2, "with_ctf": False}), ("h_wedge_batch", {"order": "aligned"}), ("h_wedge_batch", {"order": "reversed"}),
-         ("h_wedge_batch", {"order": "superset"}), ("h_wedge_batch", {"order": "aligned", "tomos": [11, 3]}), ("h_wedge_batch", {"order": "superset", "tomos": [11, 3]})]
+         ("h_wedge_batch", {"order": "superset"}), ("h_wedge_batch", {"order": "aligned", "tomos": [11, 3]}), ("h_wedge_batch", {"order": "superset", "tomos": [11, 3]}),
+         ("h_wedge_sg_to_em", {"via": "frame"}), ("h_wedge_sg_to_em", {"via": "file"})]
     if tier == "thorough":
         j += [("h_mdoc_ops", {"n": 4, "remove": [3]}), ("h_mdoc_ops", {"n": 4, "remove": [1, 2], "reset": True}), ("h_mdoc_ops", {"n": 4, "remove": [0, 3], "sort_first": True, "second": [0]}), ("h_wedge_single", {"n": 3, "with_dose": False})]
     return j
